@@ -123,6 +123,15 @@ func funcKey(f *types.Func) string {
 func isOwn(p *types.Package) bool { return p != nil && strings.HasPrefix(p.Path(), modPath) }
 
 // excluded from consensus-path inventories: CLI, simulation, test helpers, mocks, generated gateway code
+func offPathPkg(p string) bool {
+	for _, s := range []string{"/client/", "/simulation", "/testutil", "/mocks", "/types/mocks"} {
+		if strings.Contains(p+"/", s) || strings.Contains(p, s) {
+			return true
+		}
+	}
+	return false
+}
+
 func offPath(fi *funcInfo) bool {
 	p := fi.pkg.PkgPath
 	name := fset.Position(fi.file.Pos()).Filename
